@@ -36,12 +36,27 @@ def term2(E, X):
     return z3.Lambda([i, j], v)
 
 
-def row_of(E, X, r):
-    key = ("term2", id(X.cell), X.cell.term.get_id(), tuple(map(repr, X.imap)))
+def term2c(E, X):
+    """cached: the same view contents give the same (syntactically identical) term"""
+    key = ("term2", X.cell.term.get_id(), tuple(map(repr, X.imap)), tuple(map(repr, X.shape)))
     cache = E.ps.setdefault("term2", {})
     if key not in cache:
         cache[key] = term2(E, X)
-    return rowF(cache[key], z(r))
+    return cache[key]
+
+
+def term1c(E, v):
+    key = ("term1", v.cell.term.get_id(), tuple(map(repr, v.imap)), tuple(map(repr, v.shape)))
+    cache = E.ps.setdefault("term2", {})
+    if key not in cache:
+        fs = v.snapshot()
+        i = z3.Int(fresh_name("di"))
+        cache[key] = z3.Lambda([i], fs.get(i))
+    return cache[key]
+
+
+def row_of(E, X, r):
+    return rowF(term2c(E, X), z(r))
 
 
 def rows_equal_lemma(E, A, r, B, s, ncols):
@@ -181,6 +196,87 @@ def install(R):
             if r is not NotImplemented:
                 return r
         raise Unsupported("clone(%r)" % (est,))
+
+    # ------------------------------------------------------------------ sklearn.linear_model.LinearRegression
+    coefF = z3.Function("coef", Est, z3.IntSort(), z3.RealSort())
+
+    def _linreg_new(E, *a, **kw):
+        names = ["fit_intercept", "copy_X", "n_jobs", "positive"]
+        params = dict(fit_intercept=True, copy_X=True, n_jobs=None, positive=False)
+        params.update(dict(zip(names, a)))
+        params.update(kw)
+        o = new_estimator(E, "linreg", "LinearRegression", ("fit", "predict", "get_params", "set_params", "score"),
+                          False, params, ("LinearModel", "RegressorMixin", "BaseEstimator"))
+        o.fields["$fitted_attrs"] = {"coef_", "intercept_"}
+        E.trace.append(dict(op="new", cls="LinearRegression", params=dict(params), result=o))
+        return o
+    R.fns["sklearn.linear_model.LinearRegression"] = _linreg_new
+
+    def _linreg_init(E, self_obj, *a, **kw):
+        # LinearRegression.__init__(self, fit_intercept=..., copy_X=..., n_jobs=..., positive=...): stores verbatim
+        names = ["fit_intercept", "copy_X", "n_jobs", "positive"]
+        params = dict(fit_intercept=True, copy_X=True, n_jobs=None, positive=False)
+        params.update(dict(zip(names, a)))
+        params.update(kw)
+        for k, v in params.items():
+            E.setattr(self_obj, k, v)
+        return None
+    R.fns["sklearn.linear_model.LinearRegression.__init__"] = _linreg_init
+
+    def _linreg_predict(E, self_obj, X):
+        """LinearRegression.predict on an in-repo subclass instance: X @ coef_ + intercept_ (opaque, row-wise)"""
+        if not isinstance(X, NdArr) or X.ndim != 2:
+            raise Unsupported("predict on %r" % (X,))
+        maybe_raise(E, "predict")
+        out = NdArr.fresh("pred", (X.shape[0],), "real")
+        E.trace.append(dict(op="predict", obj=self_obj, X=X, result=out))
+        return out
+    R.fns["sklearn.linear_model.LinearRegression.predict"] = _linreg_predict
+    R.ext_methods["sklearn.linear_model.LinearRegression"] = {
+        "predict": "sklearn.linear_model.LinearRegression.predict",
+        "__init__": "sklearn.linear_model.LinearRegression.__init__"}
+    R.ext_bases["sklearn.linear_model.LinearRegression"] = ["LinearModel", "RegressorMixin", "BaseEstimator"]
+
+    def fitted_attr(E, base, attr, node):
+        if base.fields.get("$class") == "LinearRegression" and attr == "coef_":
+            st = base.fields["$state"]
+            X = base.fields.get("$fit_X")
+            d = X.shape[1] if isinstance(X, NdArr) and X.ndim == 2 else E.size("p", 1)
+            cache = base.fields.setdefault("$attr_cache", {})
+            key = ("coef_", st.get_id())
+            if key not in cache:
+                cache[key] = NdArr.from_fn("coef", (d,), "real", lambda j: coefF(st, j))
+            return cache[key]
+        raise Unsupported("fitted attribute %s of an opaque estimator" % attr)
+    R.fitted_attr = fitted_attr
+
+    dotF = z3.Function("dot", RA2, RA1, z3.IntSort(), z3.RealSort())
+    R.dotF = dotF
+
+    def term1(E, v):
+        fs = v.snapshot()
+        i = z3.Int(fresh_name("di"))
+        return z3.Lambda([i], fs.get(i))
+    R.term1 = term1
+
+    def matmul(E, a, b, node):
+        if isinstance(a, NdArr) and isinstance(b, NdArr) and a.ndim == 2 and b.ndim == 1:
+            from .npmodel import shapes_equal
+            shapes_equal(E, (a.shape[1],), (b.shape[0],), node, "matmul-shape")
+            ta, tb = term2c(E, a), term1c(E, b)
+            E.ps.setdefault("matmul", []).append((a, b, ta, tb))
+            return NdArr.from_fn("matmul", (a.shape[0],), "real", lambda r: dotF(ta, tb, r))
+        raise Unsupported("matmul of %r and %r" % (a, b))
+    R.matmul = matmul
+
+    maeF = z3.Function("mean_absolute_error", RA1, RA1, RA1, z3.BoolSort(), z3.RealSort())
+
+    @reg("sklearn.metrics.mean_absolute_error")
+    def _mae(E, y_true, y_pred, sample_weight=None, **kw):
+        E.trace.append(dict(op="mean_absolute_error", y_true=y_true, y_pred=y_pred, w=sample_weight, kwargs=kw))
+        r = E.real("mae")
+        E.assume(r >= 0)
+        return r
 
     # ------------------------------------------------------------------ joblib (A8)
     def _parallel(E, *a, **kw):
